@@ -409,7 +409,7 @@ def gen_program(st, flavour, tier):
         if t == "rule":
             nd["resp"] = rp_.choice(["pass", "fail", "info", "none"])
         if t == "rp":
-            nd["prio"] = rp_.choice([0, 0, 0, 1, 5])
+            nd["prio"] = rp_.choice([0, 0, 0, 1, 5, -1])
         if t not in ("parser", "rp"):
             # less common declaration forms
             r_ = rp_.random()
@@ -516,6 +516,13 @@ def gen_driver(st, case, flavour, kinds=None):
         else:
             d["sched"] = {"kind": "pct", "depth": rs.choice([1, 2, 3]), "horizon": rs.choice([50, 200, 800]),
                           "seed": rs.getrandbits(32)}
+        if rs.random() < 0.4:
+            # pre-emption between two bytecodes of one source line (e.g. after iter(d) was evaluated, before it is used)
+            d["sched"]["opcode"] = True
+            if d["sched"]["kind"] == "walk":
+                d["sched"]["p"] = rs.choice([0.01, 0.03, 0.08])
+            else:
+                d["sched"]["horizon"] = d["sched"]["horizon"] * 6
     return d
 
 
@@ -1130,8 +1137,10 @@ def run_driver(world, driver, graph):
             b = world.new_broker()
             sched = dict(driver["sched"])
             pool = SimPool(random.Random(sched.get("seed", 0)), max_workers=driver.get("workers", 2), policy=sched,
-                           traced_files=TRACED_FILES)
+                           traced_files=TRACED_FILES, opcode_files=((dr.__file__, plugins.__file__) if sched.get("opcode") else ()),
+                           max_steps=60000 if sched.get("opcode") else 20000)
             world.pool = pool
+            pool.trace_main_now()
             try:
                 dr.run_all(graph, b, pool)
             finally:
@@ -1661,7 +1670,7 @@ def shrink_driver(driver):
             while chunk >= 1:
                 for a in range(0, n, chunk):
                     d = dict(driver)
-                    d["sched"] = {"kind": "replay", "switches": sw[:a] + sw[a + chunk:]}
+                    d["sched"] = {"kind": "replay", "switches": sw[:a] + sw[a + chunk:], "opcode": bool(sched.get("opcode"))}
                     yield d
                 chunk //= 2
 
@@ -1771,7 +1780,8 @@ class EngineCheck(Check):
             r = execute_once(case, driver)
             if r.pool is not None:
                 c = _copy(case)
-                c["driver"]["sched"] = {"kind": "replay", "switches": [list(x) for x in r.pool.switches]}
+                c["driver"]["sched"] = {"kind": "replay", "switches": [list(x) for x in r.pool.switches],
+                                        "opcode": bool(driver["sched"].get("opcode"))}
                 yield c
         for d in shrink_driver(driver):
             c = _copy(case)
@@ -1790,7 +1800,7 @@ class EngineCheck(Check):
 class C01(EngineCheck):
     flavour = "C01"
     title = "Components run at most once, and only after their dependencies were attempted"
-    quick = dict(runs=300000, wall=100)
+    quick = dict(runs=220000, wall=100)
     thorough = dict(runs=10000000, wall=1500)
     rule = ("case = generated component program (<=12 quick / <=16 thorough nodes over 9 component types incl. registry points, "
             "required / at-least-one / optional edges, fault plan, pre-seeded subset, targets) x driver (dr.run with the "
@@ -1981,7 +1991,8 @@ class C04(EngineCheck):
                 r = execute_once(case, d)
                 if r.pool is not None:
                     c = _copy(case)
-                    c["driver"]["bundle"][k]["sched"] = {"kind": "replay", "switches": [list(x) for x in r.pool.switches]}
+                    c["driver"]["bundle"][k]["sched"] = {"kind": "replay", "switches": [list(x) for x in r.pool.switches],
+                                                         "opcode": bool(d["sched"].get("opcode"))}
                     yield c
             for d2 in shrink_driver(d):
                 if d2["kind"] == "run" and d["kind"] != "pool":
